@@ -160,3 +160,57 @@ CONTRACTS += [
              ensures=[('same-number-of-single-characters',
                        'len(string_chars) == len(old(string_chars)) and forall(lambda k: len(string_chars[k]) == 1, 0, len(string_chars))')]),
 ]
+
+BMEX = DT + 'base_merged.py::BaseMergedExtractor.'
+CONTRACTS += [
+    Contract('c01.try_merge_modifier_token', BMEX + 'try_merge_modifier_token', ['C01'],
+             params=dict(self=Rec(DT + 'base_merged.py::BaseMergedExtractor',
+                                  dict(config=Config(values=dict(check_both_before_after=Const(False))), options=Const(0))),
+                         source=Str(),
+                         extract_result=Rec(RT + 'extractor.py::ExtractResult',
+                                            dict(start=Int(0), length=Int(1), text=Str(), type=Str(), data=Const(None), meta_data=Const(None))),
+                         pattern=Const('modifier_regex'), potential_ambiguity=Const(False)),
+             requires=['extract_result.start + extract_result.length <= len(source)',
+                       'extract_result.text == source[extract_result.start:extract_result.start + extract_result.length]'],
+             regex_env={'modifier_regex': {'count': 2}},
+             ensures=[('widened-span-stays-inside-the-query-and-keeps-its-end',
+                       '0 <= extract_result.start and extract_result.start <= old(extract_result).start and '
+                       'extract_result.start + extract_result.length == old(extract_result).start + old(extract_result).length'),
+                      ('text-is-the-slice-of-the-query',
+                       'extract_result.text == source[extract_result.start:extract_result.start + extract_result.length]'),
+                      ('unchanged-when-no-modifier', 'implies(not result, extract_result.start == old(extract_result).start and '
+                                                     'extract_result.length == old(extract_result).length)')],
+             note='prefix modifiers only (check_both_before_after False, as in every culture but those that set it)'),
+]
+
+_PR = Rec(RT + 'parser.py::ParseResult', dict(start=Expr('ps'), length=Expr('pl'), text=Expr('ptext'), type=Str(), data=Const(None),
+                                              meta_data=Const(None), value=Str(), resolution_str=Expr('pres')))
+CONTRACTS += [
+    Contract('c01.number_model.single_parse', NUM + 'number/models.py::AbstractNumberModel.__single_parse', ['C01', 'C03'],
+             params=dict(ps=Int(0), pl=Int(1), ptext=Str(), pres=Str(),
+                         self=Rec(NUM + 'number/models.py::NumberModel',
+                                  dict(parser=Config(funcs=dict(parse=Returns(_PR))), extractor=Opaque())),
+                         source=Rec(RT + 'extractor.py::ExtractResult', dict(start=Int(0), length=Int(1), text=Str(), type=Str(),
+                                                                             data=Const(None), meta_data=Const(None)))),
+             ensures=[('span-is-the-parse-result-span-with-inclusive-end',
+                       'result.start == ps and result.end == ps + pl - 1 and result.text == ptext and result.type_name == "number"'),
+                      ('resolution-is-the-parsed-value', 'result.resolution["value"] == pres')]),
+    Contract('c01.datetime_model.to_model_result', DT + 'models.py::DateTimeModel.__to_model_result', ['C01', 'C11'],
+             params=dict(parse_result_value=Rec(DT + 'parsers.py::DateTimeParseResult',
+                                                dict(start=Int(0), length=Int(1), text=Str(), type=Str(), data=Const(None), meta_data=Const(None),
+                                                     value=Opaque(), resolution_str=Const(''), timex_str=Str()))),
+             ensures=[('end-is-the-last-character-of-the-span',
+                       'result.start == parse_result_value.start and result.end == parse_result_value.start + parse_result_value.length - 1'),
+                      ('text-and-type-copied', 'result.text == parse_result_value.text and result.type_name == parse_result_value.type')]),
+    Contract('c01.extract_result.end', RT + 'extractor.py::ExtractResult.end', ['C01', 'C12'],
+             params=dict(self=Rec(RT + 'extractor.py::ExtractResult', dict(start=Int(0), length=Int(0), text=Str(), type=Str(),
+                                                                           data=Const(None), meta_data=Const(None)))),
+             ensures=[('inclusive-end', 'result == self.start + self.length - 1')]),
+    Contract('c01.extract_result.overlap', RT + 'extractor.py::ExtractResult.overlap', ['C12'],
+             params=dict(self=Rec(RT + 'extractor.py::ExtractResult', dict(start=Int(0), length=Int(1), text=Str(), type=Str(),
+                                                                           data=Const(None), meta_data=Const(None))),
+                         other=Rec(RT + 'extractor.py::ExtractResult', dict(start=Int(0), length=Int(1), text=Str(), type=Str(),
+                                                                            data=Const(None), meta_data=Const(None)))),
+             ensures=[('share-a-character',
+                       'result == (max(self.start, other.start) <= min(self.start + self.length - 1, other.start + other.length - 1))')]),
+]
